@@ -24,6 +24,9 @@
 //  8. pool-key family (poolkey.go): requests without / with wrong credentials whose Host (or absolute-form /
 //     CONNECT authority) spells the reverse proxy's backend-pool key of a protected route, for a range of
 //     route ids, right after a legitimate request left an idle pooled connection.
+//  9. multi-route rotation family (rotate.go): a protected proxy with several routes is closed and registered
+//     again under the same name with other credentials on a subset of its routes; dropped routes must reach
+//     nothing, kept routes refuse the replaced credentials.
 package main
 
 import (
@@ -56,6 +59,7 @@ type spec struct {
 	Race    *raceSpec    `json:"route_change_while_dialing,omitempty"`
 	Reload  *reloadSpec  `json:"plugin_reload,omitempty"`
 	PoolKey *poolKeySpec `json:"pool_key_host,omitempty"`
+	Rotate  *rotateSpec  `json:"multi_route_rotation,omitempty"`
 }
 
 // pending: what every tag of the run carried, for the end-of-run sweep over the backend logs
@@ -160,6 +164,8 @@ func main() {
 			runReload(c, s.Reload)
 		case s.PoolKey != nil:
 			runPoolKey(c, s.PoolKey)
+		case s.Rotate != nil:
+			runRotate(c, s.Rotate)
 		}
 	})
 
@@ -222,6 +228,8 @@ func surfaceOf(s spec) string {
 		return "plugin-reload/" + s.Reload.Kind
 	case s.PoolKey != nil:
 		return "vhost-http/pool-key-host"
+	case s.Rotate != nil:
+		return "vhost-http/multi-route-rotation"
 	}
 	return "?"
 }
@@ -249,6 +257,7 @@ func generate() []spec {
 	out = append(out, genRace(run.RandFor("generate-race", 0))...)
 	out = append(out, genReload(run.RandFor("generate-reload", 0))...)
 	out = append(out, genPoolKey(run.RandFor("generate-poolkey", 0))...)
+	out = append(out, genRotate(run.RandFor("generate-rotate", 0))...)
 	// interleave the surfaces (the ones with a 200 ms failure delay overlap with the fast ones)
 	rng.Shuffle(len(out), func(i, j int) { out[i], out[j] = out[j], out[i] })
 	return out
